@@ -123,6 +123,9 @@ func runShutdownSchedule(acts []string) (obs string, viol []string) {
 		r.byID[c.rc.ID] = c
 		r.mu.Unlock()
 		c.rc.OnClose = func() {
+			// a Close that takes a while (TLS close_notify to a slow peer): whatever the server does after the session
+			// is accounted as ended but before Close returns would be visible as "Shutdown returned before close"
+			time.Sleep(3 * time.Millisecond)
 			r.mu.Lock()
 			c.closed = r.tick()
 			r.mu.Unlock()
